@@ -26,12 +26,12 @@ CBMC_BASE = ['--unwinding-assertions', '--pointer-overflow-check', '--undefined-
 class Job:
     def __init__(s, name, src, entry, tier='quick', defines=(), unwind=8, unwindset=(), ir2c=(), shims=(), cbmc=(),
                  timeout=600, mem_gb=10, clang=(), tv=False, tv_vectors=300, tv_link=(), kf=None, desc='', bounds='',
-                 nochecks=False, kind='cbmc', fn=None, small=()):
+                 nochecks=False, kind='cbmc', fn=None, small=(), roots=None):
         s.name = name; s.src = src; s.entry = entry; s.tier = tier; s.defines = list(defines); s.unwind = unwind
         s.unwindset = list(unwindset); s.ir2c = list(ir2c); s.shims = list(shims); s.cbmc = list(cbmc)
         s.timeout = timeout; s.mem_gb = mem_gb; s.clang = list(clang); s.tv = tv; s.tv_vectors = tv_vectors
         s.tv_link = list(tv_link); s.kf = kf; s.desc = desc; s.bounds = bounds; s.nochecks = nochecks
-        s.kind = kind; s.fn = fn; s.small = list(small)
+        s.kind = kind; s.fn = fn; s.small = list(small); s.roots = roots
 
 
 def sh(cmd, timeout=None, mem_gb=None, cwd=None, env=None):
@@ -58,7 +58,7 @@ def build_c(job, wd):
     cmd = CLANG + ['-D' + d for d in job.defines] + job.clang + ['-o', ll, src]
     r = sh(cmd, timeout=300)
     if r['rc'] != 0: raise RuntimeError('clang failed: ' + r['err'][-3000:])
-    cmd = [sys.executable, IR2C, ll, '-o', c, '--root', '^@%s$' % job.entry] + job.ir2c
+    cmd = [sys.executable, IR2C, ll, '-o', c] + sum([['--root', r] for r in (job.roots or ['^@%s$' % job.entry])], []) + job.ir2c
     r2 = sh(cmd, timeout=300)
     if r2['rc'] != 0: raise RuntimeError('ir2c failed: ' + r2['err'][-3000:])
     m = re.search(r'functions: (\d+) translated, externals: (.*)', r2['err'])
@@ -305,11 +305,24 @@ def main(argv):
     wd = tempfile.mkdtemp(prefix='verif_%s_' % o.prop, dir=os.environ.get('VERIF_TMP', '/tmp'))
     results = []
     try:
+        import threading
+        budget = [float(os.environ.get('VERIF_MEM_GB', '44'))]; cond = threading.Condition()
+        def guarded(j):
+            need = min(j.mem_gb, budget[0]) if j.mem_gb > 44 else j.mem_gb
+            with cond:
+                while budget[0] < need: cond.wait()
+                budget[0] -= need
+            try: return run_job(j, wd, seed)
+            finally:
+                with cond: budget[0] += need; cond.notify_all()
+        jobs.sort(key=lambda j: -j.mem_gb)
         with cf.ThreadPoolExecutor(max_workers=o.j) as ex:
-            futs = {ex.submit(run_job, j, wd, seed): j for j in jobs}
+            futs = {ex.submit(guarded, j): j for j in jobs}
             for f in cf.as_completed(futs):
                 r = f.result(); results.append(r)
-                sys.stderr.write('[%s] %-28s %-9s %6.1fs %s\n' % (o.prop, r['job'], r['status'], r['wall_s'], r.get('detail', '')[:300].replace('\n', ' ')))
+                sys.stderr.write('[%s] %-28s %-9s %6.1fs %s%s\n' % (o.prop, r['job'], r['status'], r['wall_s'],
+                                 ('(%s steps, %s vars, %s clauses, %s MB) ' % (r.get('steps'), r.get('variables'), r.get('clauses'), r.get('rss_mb'))) if r.get('variables') else '',
+                                 r.get('detail', '')[:300].replace('\n', ' ')))
         rc = finish(o, spec, jobs, results, seed, time.time() - t0, wd)
     finally:
         if not o.keep: shutil.rmtree(wd, ignore_errors=True)
